@@ -354,6 +354,11 @@ def sessions(draw):
         # the signals watch every symbol from the start, whatever the traded universe contains at the time
         cfg['signal_universe'] = {'kind': 'static', 'assets': ['EQ:' + s for s in names]}
         lab = lab + ['signals_watch_a_wider_universe']
+    if cfg['universe']['kind'] == 'static' and draw(st.sampled_from([False, False, True])):
+        # the signals are declared with a start of their own, a week into the session (or at the burn-in date)
+        ss_ = cal.ts6(cfg['burn_in']) if cfg.get('burn_in') else cal.ts6(start) + pd.Timedelta(days=7)
+        cfg['signal_start'] = [ss_.year, ss_.month, ss_.day, ss_.hour, ss_.minute, ss_.second]
+        lab = lab + ['signals_declared_with_a_later_start']
     if draw(st.sampled_from([False, False, False, True])):
         cfg['extra_clock_events'] = True
         lab = lab + ['clock_with_pre_and_post_market_events']
